@@ -749,7 +749,6 @@ func commaOkCase(info *types.Info, body *ast.BlockStmt, nodeAliases map[types.Ob
 	return info.TypeOf(ta.Type), body.List[2]
 }
 
-
 var pinnedPruneExitsCache map[string]int
 
 // pinnedPruneExits: refs/audited_prunes.json — for every audited prune, the number of pruning exits it was given for.
